@@ -319,10 +319,110 @@ theorem price1_tendsto {s M v : ℝ} (K : ℝ) (hv : 0 < v) (hsM : s ≤ M) :
     rw [e] at h3
     exact h3
 
+/-! ### far field `S → 0` (`s → −∞`) of the lookback closed form -/
+
+theorem tendsto_mul_exp_atBot : Tendsto (fun s : ℝ => s * Real.exp s) atBot (𝓝 0) := by
+  have h := ((Real.tendsto_pow_mul_exp_neg_atTop_nhds_zero 1).comp tendsto_neg_atBot_atTop).neg
+  rw [neg_zero] at h
+  refine h.congr ?_
+  intro s
+  simp
+
+theorem exp_mul_lb_tendsto {w : ℝ} (M : ℝ) (hw : 0 < w) :
+    Tendsto (fun s : ℝ => Real.exp s * lb (s - M) w) atBot (𝓝 0) := by
+  have hsM : Tendsto (fun s : ℝ => s - M) atBot atBot :=
+    (tendsto_id (α := ℝ) (x := atBot)).atBot_add (tendsto_const_nhds (x := -M))
+  have hP : Tendsto (fun s : ℝ => Phi (d1 (s - M) w)) atBot (𝓝 0) :=
+    Phi_tendsto_atBot.comp ((tendsto_d1_atBot_s hw).comp hsM)
+  have hE := Real.tendsto_exp_atBot
+  have hc : Tendsto (fun s : ℝ => s * Real.exp s - M * Real.exp s + w * w / 2 * Real.exp s)
+      atBot (𝓝 (0 - M * 0 + w * w / 2 * 0)) :=
+    (tendsto_mul_exp_atBot.sub (hE.const_mul M)).add (hE.const_mul (w * w / 2))
+  have hphi : Tendsto (fun s : ℝ => Real.exp s * (w * phi (d1 (s - M) w))) atBot (𝓝 0) := by
+    have hub : Tendsto (fun s : ℝ => Real.exp s * (w * (1 / Real.sqrt (2 * π)))) atBot
+        (𝓝 (0 * _)) := hE.mul_const _
+    rw [zero_mul] at hub
+    refine squeeze_zero ?_ ?_ hub
+    · intro s
+      exact mul_nonneg (Real.exp_pos s).le (mul_nonneg hw.le (phi_pos _).le)
+    · intro s
+      exact mul_le_mul_of_nonneg_left (mul_le_mul_of_nonneg_left (phi_le_const _) hw.le)
+        (Real.exp_pos s).le
+  have h := ((hE.mul hP).add (hc.mul hP)).add hphi
+  simp only [mul_zero, add_zero, sub_zero] at h
+  refine h.congr ?_
+  intro s
+  unfold lb
+  ring
+
+/-- `price1 → K e^M − K` (the locked-in payoff) as the spot tends to zero -/
+theorem price1_tendsto_far {t v : ℝ} (M K : ℝ) (ht : 0 < t) (hv : 0 < v) :
+    Tendsto (fun s => price1 s M t v K) atBot (𝓝 (K * Real.exp M - K)) := by
+  have hw := w_pos ht hv
+  have hsM : Tendsto (fun s : ℝ => s - M) atBot atBot :=
+    (tendsto_id (α := ℝ) (x := atBot)).atBot_add (tendsto_const_nhds (x := -M))
+  have h1 := exp_mul_lb_tendsto M hw
+  have h2 : Tendsto (fun s : ℝ => Phi (d2 (s - M) (v * Real.sqrt t))) atBot (𝓝 0) :=
+    Phi_tendsto_atBot.comp ((tendsto_d2_atBot_s hw).comp hsM)
+  have h3 := ((h1.const_mul K).sub_const K).add ((h2.const_sub 1).const_mul (Real.exp M * K))
+  have e : K * 0 - K + Real.exp M * K * (1 - 0) = K * Real.exp M - K := by ring
+  rw [e] at h3
+  refine h3.congr ?_
+  intro s
+  unfold price1
+  ring
+
+/-- `max(max(M, K) − K, 0)` with `M = K eᵐ`, written with the floored log-maximum -/
+theorem locked_in_eq {K : ℝ} (hK : 0 < K) (m : ℝ) :
+    max (K * Real.exp m - K) 0 = K * Real.exp (max m 0) - K := by
+  rcases lt_or_ge m 0 with hm | hm
+  · have h1 : Real.exp m < 1 := Real.exp_lt_one_iff.2 hm
+    rw [max_eq_right hm.le, Real.exp_zero, max_eq_right (by nlinarith)]
+    ring
+  · have h1 : 1 ≤ Real.exp m := Real.one_le_exp hm
+    rw [max_eq_left hm, max_eq_left (by nlinarith)]
+
 end PfVerif.C07PDEAux
 
 namespace PfVerif.C07PDE
 open PfVerif PfVerif.BSCalc PfVerif.C08Aux PfVerif.C07PDEAux PfVerif.BSIneq Real Filter Topology Set
+
+/-!
+## What is proved here, and what is NOT
+
+For the American binary (one-touch, barrier = strike `K`) and the lookback call with fixed strike,
+the risk-neutral expectation involves the joint law of a Brownian motion with drift and its running
+maximum, which Mathlib does not provide, so "price = E[payoff]" cannot even be stated.  This file
+proves instead the *verification conditions* of the boundary-value problems those expectations
+solve (zero rates; `τ` = time to maturity, `S = K eˢ` = spot, `M = K eᵐ` = running maximum):
+
+* American binary `u(τ, S)` on `0 < S < K` (region `m < 0`):
+  `american_binary_pde`        `∂u/∂τ = ½ v² S² ∂²u/∂S²`      (with `C08.american_binary_gamma_second`),
+  `american_binary_at_barrier` `u(τ, K) = 1` for all `τ > 0`,
+  `american_binary_terminal`   `u(τ, S) → 0` as `τ → 0⁺` for `S < K`,
+  `american_binary_far`        `u(τ, S) → 0` as `S → 0`,
+  `american_binary_terminal_hit` (`C08.american_binary_after_hit`): once hit (`m ≥ 0`) `u ≡ 1`.
+* Lookback call `P(τ, S, M)` on `0 < S ≤ max(M, K)`:
+  `lookback_pde`, `lookback_gamma_second`, `lookback_pde_deriv`  `∂P/∂τ = ½ v² S² ∂²P/∂S²`,
+  `lookback_neumann`, `price1_neumann`   `∂P/∂M = 0` at `S = M` (`M ≥ K`),
+  `lookback_dmax`              `M ∂P/∂M = M (1 − one-touch(S/M))` for `M > K`,
+  `lookback_terminal`          `P → max(max(M, S) − K, 0)` as `τ → 0⁺` for `S ≤ M`,
+  `lookback_far`               `P → max(M − K, 0)` as `S → 0`.
+* For completeness `european_pde`, `binary_pde` (their expectation formulas ARE proved in
+  `Props/C07`).
+
+NOT proved (and not claimed): the uniqueness / Feynman–Kac step, i.e. that a function satisfying
+these conditions (in a suitable growth class: here both solutions are bounded by `1`, resp. by
+`max(M, K)`, on a bounded `S`-domain) coincides with
+`E[1{max_{u ≤ τ} S_u ≥ K}]`, resp. `E[max(max(M, max_{u ≤ τ} S_u) − K, 0)]`, under
+`dS = v S dW`.  That step needs (a) continuous-time Brownian motion and Itô's formula, or the
+reflection principle for the joint law of `(W_τ + μτ, max_{u ≤ τ}(W_u + μu))`, and (b) a maximum
+principle for the heat equation on a half-line with Dirichlet (American binary) or oblique/Neumann
+(lookback, in the variables `(S, M)`) boundary data.  Neither is available in Mathlib.  In
+particular nothing here excludes that the model formulas differ from the expectations by another
+solution of the same boundary-value problem outside the uniqueness class.  Also not proved: joint
+(`C^{1,2}`) regularity in `(τ, S)`; only the separate partial derivatives are established.
+-/
 
 /-! ### the Black–Scholes equation `∂P/∂τ = ½ v² S² ∂²P/∂S²`
 
@@ -414,5 +514,157 @@ theorem american_binary_far {m t v : ℝ} (hm : m < 0) (ht : 0 < t) (hv : 0 < v)
   intro s
   rw [american_price_ok ht hv]
   simp only [val_ok, hm, if_true]
+
+/-! ### lookback call
+
+Running maximum `M = K eᵐ` held fixed; spot `S = K eˢ`.  `lookbackDelta`, `lookbackGamma` are the
+closed forms (`C07PDEAux`) of the first and second `S`-derivatives: with `a = s − max m 0`,
+`w = v√τ`,
+    delta = lb(a, w) + Φ(d₁(a, w)),     gamma = (Φ(d₁(a, w)) + 2 φ(d₁(a, w)) / w) / S. -/
+
+/-- closed form in the region "running maximum below the strike" -/
+theorem lookback_below_strike {K t v m : ℝ} (hK : 0 < K) (ht : 0 < t) (hv : 0 < v) (hm : m < 0)
+    (s : ℝ) : val (bsLookbackPrice s m t v K) = price0 s t v K := by
+  rw [lookback_val hK ht hv, max_eq_right hm.le, price0_eq_price1_zero]
+
+/-- closed form in the region "running maximum at or above the strike" -/
+theorem lookback_above_strike {K t v m : ℝ} (hK : 0 < K) (ht : 0 < t) (hv : 0 < v) (hm : 0 ≤ m)
+    (s : ℝ) : val (bsLookbackPrice s m t v K) = price1 s m t v K := by
+  rw [lookback_val hK ht hv, max_eq_left hm]
+
+/-- `lookbackDelta = ∂price/∂S` (both regions) -/
+theorem lookback_delta {S K t v : ℝ} (m : ℝ) (hS : 0 < S) (hK : 0 < K) (ht : 0 < t) (hv : 0 < v) :
+    HasDerivAt (fun S' => val (bsLookbackPrice (Real.log (S' / K)) m t v K))
+      (lookbackDelta (Real.log (S / K)) m t v) S := by
+  simp only [lookback_val hK ht hv]
+  exact price1_hasDerivAt_spot (max m 0) hS hK ht hv
+
+/-- `lookbackGamma = ∂delta/∂S` (both regions) -/
+theorem lookback_gamma {S K t v : ℝ} (m : ℝ) (hS : 0 < S) (hK : 0 < K) (ht : 0 < t) (hv : 0 < v) :
+    HasDerivAt (fun S' => lookbackDelta (Real.log (S' / K)) m t v)
+      (lookbackGamma (Real.log (S / K)) m t v K) S := by
+  have hel : Real.exp (Real.log (S / K)) = S / K := Real.exp_log (div_pos hS hK)
+  unfold lookbackDelta lookbackGamma
+  refine (lbDelta_hasDerivAt_spot (max m 0) hS hK ht hv).congr_deriv ?_
+  rw [hel]
+  field_simp
+
+/-- `lookbackGamma = ∂²price/∂S²` (both regions) -/
+theorem lookback_gamma_second {S K t v : ℝ} (m : ℝ) (hS : 0 < S) (hK : 0 < K) (ht : 0 < t)
+    (hv : 0 < v) :
+    HasDerivAt (deriv fun S' => val (bsLookbackPrice (Real.log (S' / K)) m t v K))
+      (lookbackGamma (Real.log (S / K)) m t v K) S :=
+  second_deriv hS (fun _ hx => lookback_delta m hx hK ht hv) (lookback_gamma m hS hK ht hv)
+
+/-- the lookback price solves the Black–Scholes equation in `(τ, S)` for every fixed running
+maximum (both regions `m < 0` and `0 ≤ m`; no restriction `s ≤ m` is needed for the identity) -/
+theorem lookback_pde {S K t v : ℝ} (m : ℝ) (hS : 0 < S) (hK : 0 < K) (ht : 0 < t) (hv : 0 < v) :
+    HasDerivAt (fun τ => val (bsLookbackPrice (Real.log (S / K)) m τ v K))
+      ((1 / 2) * v ^ 2 * S ^ 2 * lookbackGamma (Real.log (S / K)) m t v K) t := by
+  have hel : Real.exp (Real.log (S / K)) = S / K := Real.exp_log (div_pos hS hK)
+  have h := price1_hasDerivAt_time (Real.log (S / K)) (max m 0) hK ht hv
+  refine (h.congr_deriv ?_).congr_of_eventuallyEq ?_
+  · unfold lookbackGamma
+    rw [hel]
+    field_simp
+  · filter_upwards [lt_mem_nhds ht] with τ hτ
+    exact lookback_val hK hτ hv _ m
+
+/-- the PDE in one statement: the `τ`-derivative is `½ v² S²` times the second `S`-derivative -/
+theorem lookback_pde_deriv {S K t v : ℝ} (m : ℝ) (hS : 0 < S) (hK : 0 < K) (ht : 0 < t)
+    (hv : 0 < v) :
+    deriv (fun τ => val (bsLookbackPrice (Real.log (S / K)) m τ v K)) t
+      = (1 / 2) * v ^ 2 * S ^ 2
+        * deriv (deriv fun S' => val (bsLookbackPrice (Real.log (S' / K)) m t v K)) S := by
+  rw [(lookback_pde m hS hK ht hv).deriv, (lookback_gamma_second m hS hK ht hv).deriv]
+
+/-- sensitivity to the running maximum above the strike: `∂P/∂M·M = M (1 − one-touch value)`, where
+the one-touch (American binary) value is taken with the barrier at the running maximum -/
+theorem lookback_dmax {K t v m : ℝ} (s : ℝ) (hK : 0 < K) (ht : 0 < t) (hv : 0 < v) (hm : 0 < m) :
+    HasDerivAt (fun m' => val (bsLookbackPrice s m' t v K))
+      (Real.exp m * K * (1 - (Phi (d2 (s - m) (v * Real.sqrt t))
+        + Real.exp (s - m) * Phi (d1 (s - m) (v * Real.sqrt t))))) m := by
+  refine (price1_hasDerivAt_max s m ht hv).congr_of_eventuallyEq ?_
+  filter_upwards [lt_mem_nhds hm] with m' hm'
+  rw [lookback_val hK ht hv, max_eq_left hm'.le]
+
+/-- reflecting (Neumann) boundary condition for the closed form: `∂price1/∂m = 0` at `m = s`
+(spot at its running maximum) -/
+theorem price1_neumann {t v : ℝ} (s K : ℝ) (ht : 0 < t) (hv : 0 < v) :
+    HasDerivAt (fun m => price1 s m t v K) 0 s := by
+  refine (price1_hasDerivAt_max s s ht hv).congr_deriv ?_
+  rw [sub_self, american_at_barrier]
+  ring
+
+/-- reflecting (Neumann) boundary condition for the quoted price: `∂P/∂M = 0` at `S = M`, for every
+spot at or above the strike (at `s = 0` the function of `m` changes branch; it is constant on the
+left, and the derivative still exists and vanishes) -/
+theorem lookback_neumann {K t v s : ℝ} (hK : 0 < K) (ht : 0 < t) (hv : 0 < v) (hs : 0 ≤ s) :
+    HasDerivAt (fun m => val (bsLookbackPrice s m t v K)) 0 s := by
+  rcases lt_or_eq_of_le hs with h | h
+  · refine (price1_neumann s K ht hv).congr_of_eventuallyEq ?_
+    filter_upwards [lt_mem_nhds h] with m' hm'
+    rw [lookback_val hK ht hv, max_eq_left hm'.le]
+  · subst h
+    simp only [lookback_val hK ht hv]
+    have hI : HasDerivWithinAt (fun m => price1 0 (max m 0) t v K) 0 (Iic 0) 0 :=
+      (hasDerivWithinAt_const (0 : ℝ) (Iic 0) (price1 0 0 t v K)).congr
+        (fun m hm => by rw [max_eq_right (mem_Iic.1 hm)]) (by rw [max_self])
+    have hJ : HasDerivWithinAt (fun m => price1 0 (max m 0) t v K) 0 (Ici 0) 0 :=
+      (price1_neumann 0 K ht hv).hasDerivWithinAt.congr
+        (fun m hm => by rw [max_eq_left (mem_Ici.1 hm)]) (by rw [max_self])
+    have hU := hI.union hJ
+    rwa [Iic_union_Ici, hasDerivWithinAt_univ] at hU
+
+/-- terminal condition: as `τ → 0⁺` the price tends to the payoff `max(max(M, S) − K, 0)`, for
+every spot at or below the running maximum -/
+theorem lookback_terminal {s m K v : ℝ} (hK : 0 < K) (hv : 0 < v) (hsm : s ≤ m) :
+    Tendsto (fun τ => val (bsLookbackPrice s m τ v K)) (𝓝[>] 0)
+      (𝓝 (max (max (K * Real.exp m) (K * Real.exp s) - K) 0)) := by
+  have hsM : s ≤ max m 0 := le_trans hsm (le_max_left _ _)
+  rw [max_eq_left (mul_le_mul_of_nonneg_left (Real.exp_le_exp.2 hsm) hK.le), locked_in_eq hK]
+  refine (price1_tendsto K hv hsM).congr' ?_
+  filter_upwards [self_mem_nhdsWithin] with τ hτ
+  exact (lookback_val hK hτ hv s m).symm
+
+/-- far-field condition: as the spot tends to `0` (`s → −∞`) the price tends to the locked-in payoff
+`max(M − K, 0)` -/
+theorem lookback_far {K t v : ℝ} (m : ℝ) (hK : 0 < K) (ht : 0 < t) (hv : 0 < v) :
+    Tendsto (fun s => val (bsLookbackPrice s m t v K)) atBot
+      (𝓝 (max (K * Real.exp m - K) 0)) := by
+  rw [locked_in_eq hK]
+  refine (price1_tendsto_far (max m 0) K ht hv).congr ?_
+  intro s
+  exact (lookback_val hK ht hv s m).symm
+
+/-! ### non-vacuity -/
+
+/-- at `S = K = 1`, `τ = v = 1`, running maximum at the strike: the lookback gamma is
+`Φ(1/2) + 2 φ(1/2) > 0`, and the time derivative of the quoted price is half of it -/
+example :
+    HasDerivAt (fun τ => val (bsLookbackPrice (Real.log (1 / 1)) 0 τ 1 1))
+      ((1 / 2) * (Phi (1 / 2) + 2 * phi (1 / 2))) 1 ∧ 0 < Phi (1 / 2) + 2 * phi (1 / 2) := by
+  constructor
+  · have h := lookback_pde (S := 1) (K := 1) (t := 1) (v := 1) 0 one_pos one_pos one_pos one_pos
+    refine h.congr_deriv ?_
+    simp [lookbackGamma, lbGammaS, d1]
+  · have h1 := (Phi_mem_Ioo (1 / 2)).1
+    have h2 := phi_pos (1 / 2)
+    linarith
+
+/-- one-touch below the barrier, `s = −1`, `τ = v = 1`: the model returns `.ok` of a value
+strictly between 0 and 1, so the boundary value 1 and the terminal value 0 are genuinely attained
+only in the limit -/
+example :
+    0 < val (bsAmericanBinaryPrice (-1 : ℝ) (-1) 1 1) ∧
+    val (bsAmericanBinaryPrice (-1 : ℝ) (-1) 1 1) < 1 := by
+  have hm : (-1 : ℝ) < 0 := by norm_num
+  rw [american_price_ok one_pos one_pos]
+  simp only [val_ok, hm, if_true]
+  constructor
+  · have h1 := (Phi_mem_Ioo (d2 (-1) (1 * Real.sqrt 1))).1
+    have h2 := mul_pos (Real.exp_pos (-1)) (Phi_mem_Ioo (d1 (-1) (1 * Real.sqrt 1))).1
+    linarith
+  · exact american_lt_one hm (w_pos one_pos one_pos)
 
 end PfVerif.C07PDE
